@@ -109,6 +109,9 @@ def gen(tier, seed):
     for axis, positive, order, shape in itertools.product(('tidal', 'sentinel'), ('up', 'down'), ('shallow-to-deep', 'deep-to-shallow'), ('stairs', 'gaps')):
         # depth axes whose surface end is further from zero than their deep end (layers above the datum)
         yield {'positive': positive, 'order': order, 'vars': base_vars(LAYOUTS[0]), 'shape': shape, 'seed': seed, 'nonspatial': True, 'axis': axis}
+    for given in ('tuple', 'iterator', 'generator'):
+        # the documented argument type is any iterable: also a one-shot one
+        yield {'positive': 'down', 'order': 'shallow-to-deep', 'vars': base_vars(LAYOUTS[0]), 'shape': 'stairs', 'seed': seed, 'nonspatial': True, 'given': given}
     for order, shape in itertools.product(('shallow-to-deep', 'deep-to-shallow'), shapes):
         yield {'positive': 'down', 'order': order, 'vars': base_vars(LAYOUTS[0]), 'shape': shape, 'seed': seed, 'second': True, 'nonspatial': True}
         yield {'positive': 'up', 'order': order, 'vars': base_vars(LAYOUTS[0]), 'shape': shape, 'seed': seed, 'zname': 'k', 'nonspatial': True}
@@ -129,7 +132,9 @@ def test(inp):
         names = [inp.get('zname', 'zc')] + (['height'] if inp.get('second') else [])
         snapshot = ds.copy(deep=True)
         kw = {'non_spatial_variables': ['time']} if inp['nonspatial'] else {}
-        out = must(lambda: ocean_floor(ds, names, **kw), 'ocean_floor')
+        given = inp.get('given', 'list')
+        arg = {'list': names, 'tuple': tuple(names), 'iterator': iter(list(names)), 'generator': (ds[nm] for nm in list(names))}[given]
+        out = must(lambda: ocean_floor(ds, arg, **kw), f'ocean_floor (depth coordinates given as a {given})')
     if not ds.identical(snapshot):
         return 'the input dataset was modified'
     if 'k' in out.dims:
